@@ -49,6 +49,19 @@ CHECKS = {
         note="Trusts OpenSSL AES/ECDH and the layout model written from the property text; a trailing empty line in the text is tolerated.",
         design="5/C03",
     ),
+    "C04": dict(
+        category="fault_enumeration",
+        technique="fault-injection monitor: exhaustive single-byte replacement / prefix / suffix / key-bit faults on authentic files, oracle = reader raises or returns the original content",
+        text="For each authentic BF3/BEC2 file (12 shapes: 0/1/3 components, trailing-zero payloads, lengths 1/16/17, encrypted component, 1-3 auth blocks incl. ECC) every byte position x 11 replacement classes, every proper prefix of binary and text, appended suffixes and all 128 single-bit session-key changes (decryptor key and re-wrapped block for BEC2) are fed to the real reader. The per-file fault space is enumerated completely; the set of files is a sample.",
+        note="Any exception counts as 'reports an error'. ECC files get a reduced body sweep (cost).",
+        design="5/C04",
+    ),
+    "C05": dict(
+        technique="reference-model monitor: independent validator (rule list of the property, OpenSSL MACs) compared with the real reader's accept/reject decision and returned content on ~50 kinds of structured edits with MACs recomputed",
+        text="Valid files and structured edits that break exactly one rule (addresses, stored/declared lengths, duplicate/overlong tags, description/entry/directory sizes, sentinel, entry order and MAC index, trailing bytes, signature, truncations incl. the payload cut that keeps the zero-padded MAC valid, a self-consistent extra byte after the entry MAC, wrong key) are offered to Bf3File.read_file and from_binary; the reader must accept exactly when the validator does and return what the fields say. The harness asserts that the validator names the intended rule for every edit.",
+        note="Trusts the validator written from the rule list; declared length >= 1; any exception = reject.",
+        design="5/C05",
+    ),
 }
 
 NOT_YET = "check not built yet in this session (see DESIGN.md section 5 for the planned monitor)"
